@@ -16,6 +16,8 @@ pub fn judge_value(ctx: &Ctx, case: &Value) -> Result<(), Fail> {
         let oracle = match ctx.prop.as_str() {
             "C01" => props::tree::TreeOracle::C01,
             "C03" => props::tree::TreeOracle::C03,
+            "C04" => props::tree::TreeOracle::C04,
+            "C05" => props::tree::TreeOracle::C05,
             _ => props::tree::TreeOracle::C17,
         };
         return props::tree::replay(ctx, &sc, oracle);
@@ -42,6 +44,11 @@ pub fn judge_value(ctx: &Ctx, case: &Value) -> Result<(), Fail> {
     if let Some(c) = case.get("py_seq") {
         let c: props::frontends::PySeq = serde_json::from_value(c.clone()).map_err(bad)?;
         return props::frontends::replay_py(ctx, &c);
+    }
+    if case.get("py_seed_probe").is_some() {
+        let pkg = props::frontends::build_python(ctx).map_err(|e| Fail::new("harness:build", e))?;
+        let mut st = crate::runner::Stats::default();
+        return props::frontends::check_python_seed_probe(ctx, &pkg, &mut st);
     }
     if let Some(c) = case.get("py_mem") {
         let c: props::frontends::PyMemCase = serde_json::from_value(c.clone()).map_err(bad)?;
